@@ -99,7 +99,7 @@ prop("C07", "bbs",
      "extraction on every pair of transcripts of the same signature must not return e / a hidden message / the blind; no "
      "32/48-byte window (octets and JSON) equals a hidden scalar, e, the blind factor or A; bias screen on raw draws (7 sigma).",
      BBS_BASE + ["a predictable but non-repeating, well-distributed generator is indistinguishable for this monitor"],
-     (2000, 10000), (600, 3600))
+     (2000, 10000), (600, 3600), sanitizer="tsan")
 
 prop("C08", "bbs",
      "one case = (entry point, content class, length / list class / count). Every call runs under catch_unwind in a build "
@@ -118,7 +118,7 @@ prop("C08", "bbs",
      "scenario dies again when re-run alone; otherwise inconclusive. Wall-clock never decides.",
      BBS_BASE + ["update_signature's explicit count n is a legitimate size parameter: deriving H_i is Theta(i), so n is only "
                  "swept up to 4096 plus the overflow boundary"],
-     (40000, 150000), (1800, 10800), profile="checked",
+     (40000, 150000), (1800, 10800), profile="checked", sanitizer="asan",
      exhaustive_subspaces=["every input length 0..=1024 for the five variable-length decoders and for blind_sign"])
 
 prop("C09", "bbs",
@@ -131,7 +131,7 @@ prop("C09", "bbs",
      "trailing bytes, scalar>=r, off curve, non-subgroup, identity public key in both codecs, identity A / Abar / Bbar / D, e=0) must "
      "be Err. Round trips (octets, coordinates, serde_json) of API-produced objects of 12 kinds must be the identity. Commitment "
      "point, secret key and blind factor identity/zero are not in the property's list and are not asserted.",
-     BBS_BASE, (15000, 90000), (600, 3600),
+     BBS_BASE, (15000, 90000), (600, 3600), sanitizer="asan",
      exhaustive_subspaces=["all single-bit flips of one honest encoding per codec and suite", "extensions and truncations by every length 1..=64"])
 
 prop("C10", "bbs",
@@ -147,7 +147,7 @@ prop("C10", "bbs",
      "result; the set of concurrently active operation-kind pairs is recorded (fewer than 20 distinct pairs => inconclusive). Zero "
      "proof response scalars are outside the decision domain.",
      BBS_BASE + ["the reference shares only the curve arithmetic / hash_to_curve / hash functions with the library"],
-     (5000, 40000), (900, 7200),
+     (5000, 40000), (900, 7200), sanitizer="tsan",
      min_counters={"concurrent_kind_pairs": 20})
 
 prop("C11", "bbs",
